@@ -676,7 +676,7 @@ def stepRunner (st : DState) (args : List String) : Option (DState × String) :=
     match k.acqs.getD i none with
     | none => some (st, "no-future")
     | some acq => fin { k with sem := Runner.acqDrop k.sem acq, acqs := k.acqs.set i none } "ok"
-  | ["k.drop_token", t] => do
+  | ["k.drop_token", t] | ["k.drop_token_u", t] => do
     let i ← natArg t
     if k.tokens.getD i false then fin { k with sem := Runner.release k.sem, tokens := k.tokens.set i false } "ok"
     else some (st, "no-token")
@@ -711,7 +711,7 @@ def stepRunner (st : DState) (args : List String) : Option (DState × String) :=
       let w := if g5.wokenSinceRegister then k.wgWakes + 1 else k.wgWakes
       let res := if g5.lastPoll == some true then "ready" else "pending"
       some ({ st with k := { k with wg := g5, wgWakes := w, wgReg := 0 } }, s!"{res} wakes={w} wb={k.wgWakesB} hook=fired")
-  | ["g.drop", t] => do
+  | ["g.drop", t] | ["g.dropu", t] => do
     let i ← natArg t
     match Runner.wgStep k.wg (.tokenDec i) with
     | none => some (st, "no-token")
